@@ -126,19 +126,15 @@ theorem writeBatch_ok (cfg : Cfg) {s : St} (h : Inv s) {db : Name} (hdb : validD
 
 /-! ### the carve-out on requests -/
 
-def cleanConv (cols : List (Name × List Cell)) (times : List Int) (nrec : Nat) : Bool :=
-  match convert cols times nrec with
-  | none => true
-  | some b => evenBatch b
-
-/-- every batch a record hands to the buffer has columns of one length (decidable) -/
+/-- The only thing the no-panic theorem asks of a request: the batches of its TYPED records (typed
+msgpack fast path, TLE, CSV, Parquet — built by code outside the model) have columns of one length.
+Generic and row records need nothing: `convertColumnsToTyped` itself refuses ragged columns. -/
 def CleanRec : Rec → Bool
-  | .nested => true
   | .typed _ b => evenBatch b
-  | .generic _ cols times nrec => cleanConv cols times nrec
-  | .rows _ rows times nrec => cleanConv (rowsToColumnar rows) times nrec
+  | _ => true
 
-/-- the explicit carve-out of `C04_partial`: even column lengths (names are unrestricted) -/
+/-- the producer contract of `C04_partial` (decidable; validated by the harness monitor
+`ragged-typed-batch`) -/
 def CleanReq (r : Req) : Bool := r.recs.all CleanRec
 
 theorem bufferBatch_ok (cfg : Cfg) {s : St} (h : Inv s) {db : Name} (hdb : validDb db = true) (meas : Name)
@@ -161,20 +157,14 @@ theorem writeRec_ok (cfg : Cfg) {s : St} (h : Inv s) {db : Name} (hdb : validDb 
     exact bufferBatch_ok cfg h hdb meas (b := b) hr
   | generic meas cols times nrec =>
     simp only [writeRec]
-    simp only [CleanRec, cleanConv] at hr
     cases hc : convert cols times nrec with
     | none => exact ⟨_, _, rfl, h, fun _ hh => by cases hh⟩
-    | some b =>
-      simp only [hc] at hr
-      exact bufferBatch_ok cfg h hdb meas (b := b) hr
+    | some b => exact bufferBatch_ok cfg h hdb meas (b := b) (convert_even hc)
   | rows meas rows times nrec =>
     simp only [writeRec]
-    simp only [CleanRec, cleanConv] at hr
     cases hc : convert (rowsToColumnar rows) times nrec with
     | none => exact ⟨_, _, rfl, h, fun _ hh => by cases hh⟩
-    | some b =>
-      simp only [hc] at hr
-      exact bufferBatch_ok cfg h hdb meas (b := b) hr
+    | some b => exact bufferBatch_ok cfg h hdb meas (b := b) (convert_even hc)
 
 theorem writeRecs_ok (cfg : Cfg) {db : Name} (hdb : validDb db = true) :
     ∀ (recs : List Rec) {s : St} (added : Nat), Inv s → (∀ r ∈ recs, CleanRec r = true) →
